@@ -24,7 +24,7 @@ def main():
     m = dict(
         version=1,
         setup_cmd="./verif setup",
-        hooks=dict(guard="verif (Go build tag)", enable="go test -tags verif (the driver passes it on every build)",
+        hooks=dict(guard="verif (Go build tag)", enable="go test -tags verif (the driver passes it on every build; if the hook files no longer compile against a changed tree it rebuilds without the tag and the checks fall back to public-API substitutes, harness/checks/hooks_off_test.go)",
                    baseline_off_cmd="cd /repo && go test -vet=off -count=1 ./openflow13 ./protocol",
                    source_commits=hooks, add_only=True),
         engines=T.ENGINES,
